@@ -71,6 +71,11 @@ def checkFault (name : String) (kind : Option Kind) (diff : String) (e : String)
         match kind with
         | some .batched =>
           if deltasConsistent dv then [] else [.monitor s!"c09/batch_atomic/{name}" s!"k={k},at={whereS},deltas={dv}"]
+        | some .indexer =>
+          -- the call may fail after some batches were committed; `dv` lists the components that moved during
+          -- this attempt: chain data must never move without the processed-tip marker
+          if dv == "-" || dv == "0" || (dv.splitOn "+").contains "tip" then []
+          else [.monitor "c09/chain_batch_atomic" s!"k={k},at={whereS},moved_without_tip={dv}"]
         | _ =>
           if fired == "1" && !unchanged then [.monitor (noEffectName name) s!"k={k},at={whereS},res={res},changed={diff}"] else []
       else if fired == "1" then
@@ -115,6 +120,7 @@ def stepOp (d : DState) (l : Line) : DState × List Verdict :=
         else match o.kind with
           | .single => if w ≤ 1 then [] else [.mismatch s!"shape/{name}" "one_writing_transaction" txs]
           | .storeSector => if w ≤ 2 then [] else [.mismatch s!"shape/{name}" "reservation_plus_compensation" txs]
+          | .indexer => if (txs.splitOn "ww").length ≤ 1 then [] else [.mismatch s!"shape/{name}" "one_writing_transaction_per_batch" txs]
           | .batched => []
     -- 2. every injected failure
     let vF := fs.foldl (fun acc e => acc ++ checkFault name kind diff e) []
@@ -126,7 +132,7 @@ def stepOp (d : DState) (l : Line) : DState × List Verdict :=
       else if retry == twin && eq == 1 then []
       else [.monitor s!"c09/retry_converges/{name}" s!"twin={twin},retry={retry},differs={rdiff}"]
     let vCache : List Verdict :=
-      if cache == "-" then [] else [.monitor s!"c09/cache_agrees_after_success/{name}" s!"disagree={cache}"]
+      if cache == "-" || retry != "ok" then [] else [.monitor s!"c09/cache_agrees_after_success/{name}" s!"disagree={cache}"]
     let vI : List Verdict := if integ == "ok" then [] else [.monitor "c09/integrity_check" s!"op={name},after_retry,result={integ}"]
     -- model bookkeeping: deviant shapes, live webhooks
     let firedFail := fs.any fun e => match splitColon e with
